@@ -16,8 +16,8 @@ fn c13_offsets_console() {
     assert!(core::mem::offset_of!(Config, cols) == 0, "C13: offset_of!(console Config, cols) != 0");
     assert!(core::mem::offset_of!(Config, rows) == 2, "C13: offset_of!(console Config, rows) != 2");
     assert!(core::mem::offset_of!(Config, emerg_wr) == 8, "C13: offset_of!(console Config, emerg_wr) != 8");
-    assert!(size_of::<ReadOnly<u16>>() == 2 && align_of::<ReadOnly<u16>>() == 2);
-    assert!(size_of::<WriteOnly<u32>>() == 4 && align_of::<WriteOnly<u32>>() == 4);
+    assert!(size_of::<ReadOnly<u16>>() == 2 && align_of::<ReadOnly<u16>>() == 2, "C13: ReadOnly<u16> is not a 2-byte, 2-aligned register");
+    assert!(size_of::<WriteOnly<u32>>() == 4 && align_of::<WriteOnly<u32>>() == 4, "C13: WriteOnly<u32> is not a 4-byte, 4-aligned register");
     let t = ScriptT::any(DeviceType::Console);
     let c: u16 = read_config!(t, Config, cols).unwrap();
     let r: u16 = read_config!(t, Config, rows).unwrap();
